@@ -1,11 +1,19 @@
 (* Properties_C38.v — C38: PROXY protocol headers are parsed faithfully and incrementally.
-   Statements only; proofs live in ProxypProofs.v.  [ipf] is the un-modelled IP text
-   conversion (Ip::Address::GetHostByName); every theorem holds for any such function. *)
+   Statements only; proofs live in ProxypProofs.v.
+   [ipf] is the un-modelled IP text conversion (Ip::Address::GetHostByName, i.e. getaddrinfo):
+   every theorem holds for ANY such function; where a theorem needs to know what a text converts
+   to, that is a hypothesis ([ipf st = Some sa]).  An address is the 16 raw bytes Ip::Address keeps
+   (IPv4 is stored v4-mapped; [is_ipv4] is Ip::Address::isIPv4()).
+   [pp_parse ipf buf] models ProxyProtocol::Parse(buf): [Ok header size], [More]
+   (InsufficientInput) or [Reject e] (TextException). *)
 Require Import SquidV.Bytes SquidV.TokModel SquidV.ProxypModel SquidV.ProxypProofs.
 Require Import SquidV.gen.Proxyp_gen.
 Local Open Scope N_scope.
 
-(* --- first sentence: for any byte prefix, parsing asks for more, or gives the answer of the complete input --- *)
+(* ================================================================== *)
+(* Sentence 1: for any byte prefix, parsing asks for more bytes, rejects, or returns the same
+   header that parsing the complete input returns.                                         *)
+
 Theorem C38_definitive_outcome_is_final : forall ipf b x,
   pp_parse ipf b <> More -> pp_parse ipf (b ++ x) = pp_parse ipf b.
 Proof. exact pp_parse_ext. Qed.
@@ -20,3 +28,280 @@ Theorem C38_rejection_stable_under_extension : forall ipf b x e,
   pp_parse ipf b = Reject e -> pp_parse ipf (b ++ x) = Reject e.
 Proof. exact pp_reject_stable. Qed.
 Print Assumptions C38_rejection_stable_under_extension.
+
+Theorem C38_prefix_answer_is_more_or_final : forall ipf p x,
+  pp_parse ipf p = More \/ pp_parse ipf p = pp_parse ipf (p ++ x).
+Proof. exact pp_prefix_consistent. Qed.
+Print Assumptions C38_prefix_answer_is_more_or_final.
+
+(* the same, over the list of answers an incremental caller sees (one per prefix length 0..n) *)
+Theorem C38_every_prefix_answer_is_more_or_final : forall ipf full o,
+  In o (pp_parse_prefixes ipf full) -> o = More \/ o = pp_parse ipf full.
+Proof. exact pp_all_prefixes_consistent. Qed.
+Print Assumptions C38_every_prefix_answer_is_more_or_final.
+
+Theorem C38_consumed_size_within_input : forall ipf b h n,
+  pp_parse ipf b = Ok h n -> n <= lenN b.
+Proof. exact pp_ok_size_le. Qed.
+Print Assumptions C38_consumed_size_within_input.
+
+(* the model's explicit-fuel TLV loop never reports its out-of-fuel artefact *)
+Theorem C38_model_never_out_of_fuel : forall ipf b, pp_parse ipf b <> Reject E_fuel.
+Proof. exact pp_never_out_of_fuel. Qed.
+Print Assumptions C38_model_never_out_of_fuel.
+
+(* ================================================================== *)
+(* Sentence 2: for every well-formed header the parsed addresses, ports, command and TLVs equal
+   the encoded ones and the consumed length is exactly the header length — whatever follows.  *)
+
+(* v1 TCP4/TCP6; ports are any digit strings with value <= 65535 (leading zeros included).
+   _partial: for TCP6 both addresses must not be v4-mapped (see C38_v1_tcp6_v4mapped_refuted). *)
+Theorem C38_v1_tcp_roundtrip_partial : forall ipf fam st dt sa da sps dps rest,
+  st <> [] -> dt <> [] -> forallb ipChars st = true -> forallb ipChars dt = true ->
+  ipf st = Some sa -> ipf dt = Some da ->
+  ((fam = 52 /\ is_ipv4 sa = true /\ is_ipv4 da = true) \/ (fam = 54 /\ is_ipv4 sa = false /\ is_ipv4 da = false)) ->
+  sps <> [] -> Forall is_dec sps -> dec_value sps <= 65535 ->
+  dps <> [] -> Forall is_dec dps -> dec_value dps <= 65535 ->
+  lenN (enc_v1_tcp fam st dt sps dps) <= v1_maxHeaderLength ->
+  pp_parse ipf (enc_v1_tcp fam st dt sps dps ++ rest) =
+  Ok {| h_v2 := false; h_cmd := pp_cmdProxy; h_ignore := false;
+        h_src := sa; h_sport := dec_value sps; h_dst := da; h_dport := dec_value dps; h_tlvs := [] |}
+     (lenN (enc_v1_tcp fam st dt sps dps)).
+Proof. exact v1_tcp_roundtrip. Qed.
+Print Assumptions C38_v1_tcp_roundtrip_partial.
+
+(* the same with ports given as numbers and printed in canonical decimal (sweep over all 65536 ports) *)
+Theorem C38_v1_tcp_roundtrip_numeric_partial : forall ipf fam st dt sa da sp dp rest,
+  st <> [] -> dt <> [] -> forallb ipChars st = true -> forallb ipChars dt = true ->
+  ipf st = Some sa -> ipf dt = Some da ->
+  ((fam = 52 /\ is_ipv4 sa = true /\ is_ipv4 da = true) \/ (fam = 54 /\ is_ipv4 sa = false /\ is_ipv4 da = false)) ->
+  sp < 65536 -> dp < 65536 ->
+  lenN (enc_v1_tcp fam st dt (dec sp) (dec dp)) <= v1_maxHeaderLength ->
+  pp_parse ipf (enc_v1_tcp fam st dt (dec sp) (dec dp) ++ rest) =
+  Ok {| h_v2 := false; h_cmd := pp_cmdProxy; h_ignore := false;
+        h_src := sa; h_sport := sp; h_dst := da; h_dport := dp; h_tlvs := [] |}
+     (lenN (enc_v1_tcp fam st dt (dec sp) (dec dp))).
+Proof. exact v1_tcp_roundtrip_numeric. Qed.
+Print Assumptions C38_v1_tcp_roundtrip_numeric_partial.
+
+Theorem C38_v1_unknown_roundtrip : forall ipf junk rest,
+  forallb nonCR junk = true -> lenN (enc_v1_unknown junk) <= v1_maxHeaderLength ->
+  pp_parse ipf (enc_v1_unknown junk ++ rest) =
+  Ok {| h_v2 := false; h_cmd := pp_cmdProxy; h_ignore := true;
+        h_src := addr_empty; h_sport := 0; h_dst := addr_empty; h_dport := 0; h_tlvs := [] |}
+     (lenN (enc_v1_unknown junk)).
+Proof. exact v1_unknown_roundtrip. Qed.
+Print Assumptions C38_v1_unknown_roundtrip.
+
+(* v2, PROXY command, families INET / INET6 / UNIX, STREAM or DGRAM, any TLV list *)
+Theorem C38_v2_proxy_roundtrip : forall ipf a proto tlvs rest,
+  v2addr_wf a -> (proto = pp_tpStream \/ proto = pp_tpDgram) ->
+  Forall (fun t => lenN (snd t) < 65536) tlvs ->
+  lenN (enc_v2_addr a ++ enc_tlvs tlvs) < 65536 ->
+  pp_parse ipf (enc_v2 pp_cmdProxy (v2addr_family a) proto (enc_v2_addr a ++ enc_tlvs tlvs) ++ rest) =
+  Ok (v2_expected pp_cmdProxy a tlvs)
+     (lenN (enc_v2 pp_cmdProxy (v2addr_family a) proto (enc_v2_addr a ++ enc_tlvs tlvs))).
+Proof. exact v2_proxy_roundtrip. Qed.
+Print Assumptions C38_v2_proxy_roundtrip.
+
+(* v2, LOCAL command: addresses are read, the rest of the block is discarded (no TLVs reported) *)
+Theorem C38_v2_local_roundtrip : forall ipf a proto extra rest,
+  v2addr_wf a -> (proto = pp_tpStream \/ proto = pp_tpDgram) ->
+  lenN (enc_v2_addr a ++ extra) < 65536 ->
+  pp_parse ipf (enc_v2 pp_cmdLocal (v2addr_family a) proto (enc_v2_addr a ++ extra) ++ rest) =
+  Ok (v2_expected pp_cmdLocal a [])
+     (lenN (enc_v2 pp_cmdLocal (v2addr_family a) proto (enc_v2_addr a ++ extra))).
+Proof. exact v2_local_roundtrip. Qed.
+Print Assumptions C38_v2_local_roundtrip.
+
+(* v2, unspecified family or protocol: the whole block is skipped, no address is reported *)
+Theorem C38_v2_unspec_roundtrip : forall ipf cmd fam proto payload rest,
+  cmd <= pp_cmdProxy -> fam <= pp_afUnix -> proto <= pp_tpDgram ->
+  (fam = pp_afUnspecified \/ proto = pp_tpUnspecified) -> lenN payload < 65536 ->
+  pp_parse ipf (enc_v2 cmd fam proto payload ++ rest) =
+  Ok {| h_v2 := true; h_cmd := cmd; h_ignore := true;
+        h_src := addr_empty; h_sport := 0; h_dst := addr_empty; h_dport := 0; h_tlvs := [] |}
+     (lenN (enc_v2 cmd fam proto payload)).
+Proof. exact v2_unspec_roundtrip. Qed.
+Print Assumptions C38_v2_unspec_roundtrip.
+
+(* the TLV decoder inverts the TLV encoder for every list of TLVs *)
+Theorem C38_tlvs_roundtrip : forall tlvs,
+  Forall (fun t => lenN (snd t) < 65536) tlvs -> parse_tlvs (enc_tlvs tlvs) = TOk tlvs.
+Proof. exact parse_tlvs_enc. Qed.
+Print Assumptions C38_tlvs_roundtrip.
+
+(* ================================================================== *)
+(* Sentence 3: malformed headers are rejected.                         *)
+
+(* more than 100 bytes without CR after "PROXY" (a line longer than 107 bytes) *)
+Theorem C38_v1_oversized_line_rejected : forall ipf body rest,
+  forallb nonCR body = true -> v1_maxInteriorLength < lenN body ->
+  pp_parse ipf (pp_magic1 ++ body ++ rest) = Reject E1_malformed_header.
+Proof. exact v1_oversized_rejected. Qed.
+Print Assumptions C38_v1_oversized_line_rejected.
+
+(* a port whose digits denote more than 65535: ANY number of digits, also beyond 2^63 *)
+Theorem C38_v1_big_source_port_rejected : forall ipf fam st dt sa da sps more rest,
+  st <> [] -> dt <> [] -> forallb ipChars st = true -> forallb ipChars dt = true ->
+  ipf st = Some sa -> ipf dt = Some da -> famChars fam = true ->
+  sps <> [] -> Forall is_dec sps -> 65535 < dec_value sps -> stops10 more ->
+  forallb nonCR more = true -> lenN (fam :: 32 :: st ++ 32 :: dt ++ 32 :: sps ++ more) <= 96 ->
+  exists e, pp_parse ipf (pp_magic1 ++ (32 :: s_TCP ++ fam :: 32 :: st ++ 32 :: dt ++ 32 :: sps ++ more) ++ 13 :: 10 :: rest)
+  = Reject e.
+Proof. exact v1_big_src_port_rejected. Qed.
+Print Assumptions C38_v1_big_source_port_rejected.
+
+Theorem C38_v1_big_destination_port_rejected : forall ipf fam st dt sa da sps dps more rest,
+  st <> [] -> dt <> [] -> forallb ipChars st = true -> forallb ipChars dt = true ->
+  ipf st = Some sa -> ipf dt = Some da -> famChars fam = true ->
+  sps <> [] -> Forall is_dec sps -> dec_value sps <= 65535 ->
+  dps <> [] -> Forall is_dec dps -> 65535 < dec_value dps -> stops10 more ->
+  forallb nonCR more = true -> lenN (fam :: 32 :: st ++ 32 :: dt ++ 32 :: sps ++ 32 :: dps ++ more) <= 96 ->
+  exists e, pp_parse ipf (pp_magic1 ++ (32 :: s_TCP ++ fam :: 32 :: st ++ 32 :: dt ++ 32 :: sps ++ 32 :: dps ++ more) ++ 13 :: 10 :: rest)
+  = Reject e.
+Proof. exact v1_big_dst_port_rejected. Qed.
+Print Assumptions C38_v1_big_destination_port_rejected.
+
+(* a port field that does not start with a digit (sign, letter, space, ...) *)
+Theorem C38_v1_nonnumeric_port_rejected : forall ipf fam st dt sa da c more rest,
+  st <> [] -> dt <> [] -> forallb ipChars st = true -> forallb ipChars dt = true ->
+  ipf st = Some sa -> ipf dt = Some da -> famChars fam = true ->
+  digit_of 10 c = None ->
+  forallb nonCR (c :: more) = true -> lenN (fam :: 32 :: st ++ 32 :: dt ++ 32 :: c :: more) <= 96 ->
+  exists e, pp_parse ipf (pp_magic1 ++ (32 :: s_TCP ++ fam :: 32 :: st ++ 32 :: dt ++ 32 :: c :: more) ++ 13 :: 10 :: rest)
+  = Reject e.
+Proof. exact v1_nonnumeric_src_port_rejected. Qed.
+Print Assumptions C38_v1_nonnumeric_port_rejected.
+
+(* declared TCP4 with an address that is not IPv4, or declared TCP6 with an address that is *)
+Theorem C38_v1_family_mismatch_rejected : forall ipf fam st dt sa da more rest,
+  st <> [] -> dt <> [] -> forallb ipChars st = true -> forallb ipChars dt = true ->
+  ipf st = Some sa -> ipf dt = Some da ->
+  ((fam = 52 /\ (is_ipv4 sa = false \/ is_ipv4 da = false)) \/ (fam = 54 /\ (is_ipv4 sa = true \/ is_ipv4 da = true))) ->
+  forallb nonCR more = true -> lenN (fam :: 32 :: st ++ 32 :: dt ++ 32 :: more) <= 96 ->
+  pp_parse ipf (pp_magic1 ++ (32 :: s_TCP ++ fam :: 32 :: st ++ 32 :: dt ++ 32 :: more) ++ 13 :: 10 :: rest)
+  = Reject E1_family_mismatch.
+Proof. exact v1_family_mismatch_rejected. Qed.
+Print Assumptions C38_v1_family_mismatch_rejected.
+
+Theorem C38_v2_bad_version_rejected : forall ipf vc rest, vc / 16 <> 2 ->
+  pp_parse ipf (pp_magic2 ++ vc :: rest) = Reject (E2_version (vc / 16)).
+Proof. exact v2_bad_version_rejected. Qed.
+Print Assumptions C38_v2_bad_version_rejected.
+
+Theorem C38_v2_bad_command_rejected : forall ipf vc rest, vc / 16 = 2 -> pp_cmdProxy < vc mod 16 ->
+  pp_parse ipf (pp_magic2 ++ vc :: rest) = Reject (E2_command (vc mod 16)).
+Proof. exact v2_bad_command_rejected. Qed.
+Print Assumptions C38_v2_bad_command_rejected.
+
+Theorem C38_v2_bad_family_rejected : forall ipf vc fp rest,
+  vc / 16 = 2 -> vc mod 16 <= pp_cmdProxy -> pp_afUnix < fp / 16 ->
+  pp_parse ipf (pp_magic2 ++ vc :: fp :: rest) = Reject (E2_family (fp / 16)).
+Proof. exact v2_bad_family_rejected. Qed.
+Print Assumptions C38_v2_bad_family_rejected.
+
+Theorem C38_v2_bad_protocol_rejected : forall ipf vc fp rest,
+  vc / 16 = 2 -> vc mod 16 <= pp_cmdProxy -> fp / 16 <= pp_afUnix -> pp_tpDgram < fp mod 16 ->
+  pp_parse ipf (pp_magic2 ++ vc :: fp :: rest) = Reject (E2_proto (fp mod 16)).
+Proof. exact v2_bad_proto_rejected. Qed.
+Print Assumptions C38_v2_bad_protocol_rejected.
+
+(* the declared length is smaller than the address block of the declared family (12 / 36 / 216) *)
+Theorem C38_v2_short_address_block_rejected : forall ipf cmd fam proto payload rest,
+  cmd <= pp_cmdProxy -> (fam = pp_afInet \/ fam = pp_afInet6 \/ fam = pp_afUnix) ->
+  (proto = pp_tpStream \/ proto = pp_tpDgram) -> lenN payload < v2_block_size fam ->
+  pp_parse ipf (enc_v2 cmd fam proto payload ++ rest) = Reject E_must.
+Proof. exact v2_short_address_block_rejected. Qed.
+Print Assumptions C38_v2_short_address_block_rejected.
+
+(* 12 or more bytes that start with neither magic *)
+Theorem C38_invalid_magic_rejected : forall ipf b,
+  starts_with b pp_magic1 = false -> starts_with b pp_magic2 = false -> lenN pp_magic2 <= lenN b ->
+  pp_parse ipf b = Reject E_magic.
+Proof. exact invalid_magic_rejected. Qed.
+Print Assumptions C38_invalid_magic_rejected.
+
+(* ================================================================== *)
+(* Deviations of the code from the property (findings), proved of the faithful model and
+   reproduced on the implementation (corpus/C38/known.txt).                               *)
+
+(* "malformed headers are rejected" is FALSE for bytes after the destination port:
+   "PROXY TCP4 1.1.1.1 1.1.1.1 1 2xyz\r\n" is accepted with destination port 2 *)
+Theorem C38_v1_bytes_after_dst_port_refuted : forall ipf,
+  ipf b_1111 = Some a_1111 ->
+  pp_parse ipf line_trailing =
+  Ok {| h_v2 := false; h_cmd := pp_cmdProxy; h_ignore := false;
+        h_src := a_1111; h_sport := 1; h_dst := a_1111; h_dport := 2; h_tlvs := [] |} (lenN line_trailing).
+Proof. exact v1_bytes_after_dst_port_refuted. Qed.
+Print Assumptions C38_v1_bytes_after_dst_port_refuted.
+
+(* in general: ANY bytes (not starting with a digit, no CR) after the destination port are ignored *)
+Theorem C38_v1_trailing_bytes_ignored_refuted : forall ipf fam st dt sa da sps dps junk rest,
+  st <> [] -> dt <> [] -> forallb ipChars st = true -> forallb ipChars dt = true ->
+  ipf st = Some sa -> ipf dt = Some da ->
+  ((fam = 52 /\ is_ipv4 sa = true /\ is_ipv4 da = true) \/ (fam = 54 /\ is_ipv4 sa = false /\ is_ipv4 da = false)) ->
+  sps <> [] -> Forall is_dec sps -> dec_value sps <= 65535 ->
+  dps <> [] -> Forall is_dec dps -> dec_value dps <= 65535 ->
+  stops10 junk -> forallb nonCR junk = true ->
+  lenN (fam :: 32 :: st ++ 32 :: dt ++ 32 :: sps ++ 32 :: dps ++ junk) <= 96 ->
+  pp_parse ipf (pp_magic1 ++ (32 :: s_TCP ++ fam :: 32 :: st ++ 32 :: dt ++ 32 :: sps ++ 32 :: dps ++ junk) ++ 13 :: 10 :: rest) =
+  Ok {| h_v2 := false; h_cmd := pp_cmdProxy; h_ignore := false;
+        h_src := sa; h_sport := dec_value sps; h_dst := da; h_dport := dec_value dps; h_tlvs := [] |}
+     (lenN pp_magic1 + (lenN (32 :: s_TCP ++ fam :: 32 :: st ++ 32 :: dt ++ 32 :: sps ++ 32 :: dps ++ junk) + 1 + 1)).
+Proof. exact v1_tcp_trailing_bytes_ignored. Qed.
+Print Assumptions C38_v1_trailing_bytes_ignored_refuted.
+
+(* "every well-formed header is parsed" is FALSE for TCP6 with a v4-mapped address:
+   "PROXY TCP6 ::ffff:1.1.1.1 ::1 1 2\r\n" is rejected as a family mismatch *)
+Theorem C38_v1_tcp6_v4mapped_refuted : forall ipf,
+  ipf b_mapped = Some a_1111 -> ipf b_v6 = Some a_v6 ->
+  pp_parse ipf line_mapped = Reject E1_family_mismatch.
+Proof. exact v1_tcp6_v4mapped_refuted. Qed.
+Print Assumptions C38_v1_tcp6_v4mapped_refuted.
+
+(* ================================================================== *)
+(* the hypotheses above are satisfiable by concrete, non-trivial values *)
+Definition ex_ipf (t : bytes) : option ipaddr :=
+  if list_eqb t b_1111 then Some a_1111 else if list_eqb t b_v6 then Some a_v6
+  else if list_eqb t b_mapped then Some a_1111 else None.
+
+(* "PROXY TCP4 1.1.1.1 1.1.1.1 80 443\r\n" followed by "GET" *)
+Example ex_v1_tcp4 :
+  pp_parse ex_ipf (enc_v1_tcp 52 b_1111 b_1111 [56;48] [52;52;51] ++ [71;69;84]) =
+  Ok {| h_v2 := false; h_cmd := 1; h_ignore := false; h_src := a_1111; h_sport := 80;
+        h_dst := a_1111; h_dport := 443; h_tlvs := [] |} 35.
+Proof. vm_compute. reflexivity. Qed.
+
+Example ex_v1_hyps :
+  b_1111 <> [] /\ forallb ipChars b_1111 = true /\ ex_ipf b_1111 = Some a_1111 /\ is_ipv4 a_1111 = true /\
+  dec_value [52;52;51] = 443 /\ dec 443 = [52;52;51] /\
+  lenN (enc_v1_tcp 52 b_1111 b_1111 [56;48] [52;52;51]) <= v1_maxHeaderLength /\
+  is_ipv4 a_v6 = false /\ stops10 [120;121;122] /\ digit_of 10 43 = None.
+Proof. repeat split; try (vm_compute; congruence); reflexivity. Qed.
+
+Example ex_v1_digits : Forall is_dec [52;52;51].
+Proof. repeat (apply Forall_cons; [unfold is_dec; lia|]). apply Forall_nil. Qed.
+
+(* every prefix of that input is answered More until the line is complete (35 bytes), then the header *)
+Example ex_v1_prefixes :
+  map (fun o => match o with More => 0 | Ok _ n => n | Reject _ => 999 end)
+      (pp_parse_prefixes ex_ipf (enc_v1_tcp 52 b_1111 b_1111 [56;48] [52;52;51] ++ [71;69;84])) =
+  repeat 0 35%nat ++ [35; 35; 35; 35].
+Proof. vm_compute. reflexivity. Qed.
+
+(* v2 PROXY INET STREAM 1.2.3.4:80 -> 5.6.7.8:443 with TLVs (1,"h2") and (4,"") *)
+Example ex_v2 :
+  v2addr_wf (A_inet [1;2;3;4] [5;6;7;8] 80 443) /\
+  pp_parse ex_ipf (enc_v2 pp_cmdProxy pp_afInet pp_tpStream
+                     (enc_v2_addr (A_inet [1;2;3;4] [5;6;7;8] 80 443) ++ enc_tlvs [(1, [104;50]); (4, [])]) ++ [71]) =
+  Ok {| h_v2 := true; h_cmd := 1; h_ignore := false; h_src := v4_prefix ++ [1;2;3;4]; h_sport := 80;
+        h_dst := v4_prefix ++ [5;6;7;8]; h_dport := 443; h_tlvs := [(1, [104;50]); (4, [])] |} 36.
+Proof. split; [vm_compute; repeat split; congruence|vm_compute; reflexivity]. Qed.
+
+(* rejections and stability have instances: a bad version byte is rejected at 13 bytes and stays rejected *)
+Example ex_reject_stable :
+  pp_parse ex_ipf (pp_magic2 ++ [49]) = Reject (E2_version 3) /\
+  pp_parse ex_ipf (pp_magic2 ++ [49] ++ [1;2;3]) = Reject (E2_version 3) /\
+  pp_parse ex_ipf (pp_magic2) = More /\ pp_parse ex_ipf [80;82;79] = More.
+Proof. vm_compute. repeat split; reflexivity. Qed.
